@@ -19,8 +19,8 @@ claimed = {
          "assumed: strings.HasPrefix/HasSuffix/IndexFunc, TOML decoding and the directory walk (havoc); NOT decided: exit status and formatter equivalence (printDiagnostics), application of the selection in the runner", "DESIGN.md §7 C11"),
  "C12": ("proof that mergeRuns returns exactly the problems the property names: every result was reported by some run and satisfies the any/all condition (all: every run that checked the file reported the same descriptor), and every reported problem satisfying it occurs in the result",
          "NOT decided: build-name annotation and de-duplication in printDiagnostics, gob decoding of -merge inputs, -matrix parsing; order independence follows from the set-level postcondition (paper step)", "DESIGN.md §7 C12"),
- "C13": ("proof of the lattice laws the solvers rely on: nilness lattice (table read from source) associativity, commutativity, idempotence, identity, closure over the full domain; dfa.DenseMapLattice and dfa.MapLattice Merge are pointwise merges and satisfy the four laws pointwise for every element semilattice; worklist bitmap of the dense solver (enqueue/dequeue against a set view)",
-         "assumed: the element lattice satisfies the semilattice laws (that is the hypothesis of the statement), container/heap touches only the heap slice; NOT decided: that the dense and sparse solvers reach the least fixpoint, DenseMapLattice.Equals, termination", "DESIGN.md §7 C13"),
+ "C13": ("proof of the lattice laws the solvers rely on: nilness lattice (table read from source) associativity, commutativity, idempotence, identity, closure over the full domain; dfa.DenseMapLattice and dfa.MapLattice Merge are pointwise merges, their Equals is exactly equality of the denoted total maps (sound and complete), and the four laws plus symmetry, transitivity and congruence hold as decided by Equals, for every element semilattice; worklist bitmap of the dense solver (enqueue/dequeue against a set view); one step of the sparse solver's worklist loop (Instance.Forward): after processing the mappings of an instruction the valuation agrees with the last mapping produced per value (missing values read as the identity, not the zero value) and, if the valuation changed anywhere, every referrer of the instruction is on the worklist, which never loses elements during the step; Instance.Value/Set against the valuation",
+         "assumed: the element lattice satisfies the semilattice laws and its Equals is equality (that is the hypothesis of the statement), slices.EqualFunc/ContainsFunc and maps.EqualFunc as documented (extern contracts over apply()), container/heap touches only the heap slice; NOT decided: that the dense and sparse solvers reach the least fixpoint (the step facts are not composed into the global claim), the dense solver's propagate loop, termination", "DESIGN.md §7 C13"),
  "C14": ("proof that the pre/post numbering of the dominator tree makes Dominates exact: numberDomTree assigns numbers such that interval containment equals the subtree relation (for all forests, unbounded), Dominates/Idom/Dominees read exactly those fields, both listings contain every block; BOUNDED (not proof): the Lengauer-Tarjan core buildDomTree is run on every CFG with <= 4 (quick) / <= 5 (thorough) blocks incl. a disjoint recover region and compared with the definition of dominance",
          "assumed: the forest axioms (sub/cidx/csum exist for every finite forest; paper step), sort.Slice permutes; NOT decided beyond the bound: exactness of idom computed by Lengauer-Tarjan for more than 5 blocks", "DESIGN.md §7 C14"),
  "C15": ("proof that the nilness join is sound w.r.t. the concretisation (gamma) for all 25 pairs per component and that the merge table stays a semilattice; that the abstract state (state.get/set/setInner/setOuter) denotes a valuation of IR values that changes only at the key written (frame over all other values) and never erases a value's default; that normalize keeps the valuation well-formed; and that the transfer rule for builtin calls (handleReturnValue) implements a rule table proved sound against the concrete semantics of the builtins (lemma builtin_rule_sound)",
